@@ -223,6 +223,15 @@ def chk_biv(ctx, p, ai, av, cls):
     CTX.count("aliasing.requirements_mutated")
     for T in (Perm(t) for t in itertools.islice(itertools.permutations(range(min(4, len(P) + 2))), 6)):
         _pair(B, T, full=False)
+    # the same requirements in another order and with repetitions: same pattern, same searches
+    ri, rv = list(reversed(list(ai))) + list(ai)[:1], list(reversed(list(av))) + list(av)[-1:]
+    B4 = BivincularPatt(P, ri, rv) if cls == "BivincularPatt" else VincularPatt(P, tuple(ri)) if cls == "VincularPatt" else CovincularPatt(P, tuple(rv))
+    ctx.ev()
+    ctx.count("roundtrip.reordered_requirements")
+    if not (B4 == B and hash(B4) == hash(B)):
+        report("biv", [p, ai, av, cls], f"requirements given as {ri, rv} (another order / repeated) give a different pattern than {list(ai), list(av)}")
+    for T in (Perm(t) for t in itertools.islice(itertools.permutations(range(min(4, len(P) + 2))), 10)):
+        _pair(B4, T, full=False)
     # the same requirements handed over as one-shot iterables (generators, iter, map): same pattern, same searches
     if cls == "BivincularPatt":
         B3 = BivincularPatt(P, iter(list(ai)), (v for v in av))
